@@ -20,6 +20,8 @@ CONSTANTS Shapes,       \* set of <<number of columns, maximal number of rows, h
           Menu,         \* sequence of cell strings for the text family
           MaxText,      \* texts longer than this are not exported
           Frames,       \* sequence of typed frames (chosen by the harness)
+          OptCases,     \* sequence of [text, o]: files with junk / comment / blank lines at the top x reader options
+                        \* (header, names, skiprows, comment), chosen by the harness (seeded, stratified by option)
           MaxParts
 
 VARIABLES ccase, cdone, out
@@ -30,6 +32,8 @@ Tables(nc, nr, m) == UNION {[1..r -> [1..nc -> 1..m]] : r \in 0..nr}
 TextSeeds == UNION {{[fam |-> "text", nc |-> sh[1], tab |-> tb, tn |-> tn] : tb \in Tables(sh[1], sh[2], sh[3]), tn \in BOOLEAN}
                     : sh \in Shapes}
 FrameSeeds == {[fam |-> "fseed", f |-> f] : f \in DOMAIN Frames}
+OptSeeds   == {[fam |-> "oseed", k |-> k] : k \in DOMAIN OptCases}
+AllBs(t) == 1..(Len(t) + 1)
 
 RECURSIVE SumL(_)
 SumL(sq) == IF sq = <<>> THEN 0 ELSE Head(sq) + SumL(Tail(sq))
@@ -40,7 +44,7 @@ RowsOf(c) == [k \in DOMAIN c.tab |-> [j \in 1..c.nc |-> Menu[c.tab[k][j]]]]
 TextOf(c) == LET full == WriteCsv(HdrOf(c), RowsOf(c), TRUE) IN
              IF c.tn THEN full ELSE SubSeq(full, 1, Len(full) - 1)
 
-Init == /\ ccase \in TextSeeds \cup FrameSeeds
+Init == /\ ccase \in TextSeeds \cup FrameSeeds \cup OptSeeds
         /\ cdone = FALSE
         /\ out = ""
 Next == /\ ~cdone
@@ -49,6 +53,15 @@ Next == /\ ~cdone
            THEN /\ ccase' = ccase
                 /\ out' = IF Len(TextOf(ccase)) > MaxText THEN ""
                           ELSE ToJson([c |-> ccase, e |-> [text |-> TextOf(ccase), hdr |-> HdrOf(ccase), rows |-> RowsOf(ccase)]])
+           ELSE IF ccase.fam = "oseed"
+           THEN LET oc == OptCases[ccase.k] IN
+                /\ ccase' = [fam |-> "opts", k |-> ccase.k]
+                /\ out' = ToJson([c |-> ccase',
+                                  e |-> [r |-> ReadOpts(oc.text, oc.o),
+                                         \* for each blocksize: does the first block hold the whole top of the file
+                                         top |-> TopBytes(oc.text, oc.o), toplines |-> TopLines(oc.text, oc.o),
+                                         cov |-> LET top == TopBytes(oc.text, oc.o) IN
+                                                 [bs \in AllBs(oc.text) |-> HoldsTopAt(oc.text, top, bs)]]])
            ELSE \E lay \in LayoutsOf(Len(Frames[ccase.f].rows)), single \in BOOLEAN, wi \in BOOLEAN :
                 /\ ccase' = [fam |-> "frame", f |-> ccase.f, lay |-> lay, single |-> single, wi |-> wi]
                 /\ out' = ToJson([c |-> ccase',
@@ -67,6 +80,23 @@ ParseInvertsWrite ==
 
 BlocksizeInvariant ==
   TextCase => \A bs \in 1..(Len(T) + 1) : ReadByBlocks(T, bs) = ParseCsv(T)
+
+\* reader options: whenever the first block holds the top of the file, the block-wise read is the whole read
+OptCase == cdone /\ ccase.fam = "opts"
+OptsBlocksizeInvariant ==
+  OptCase =>
+    LET oc == OptCases[ccase.k]
+        whole == ReadOpts(oc.text, oc.o)
+        top == TopBytes(oc.text, oc.o)
+    IN ~whole.err =>
+       \A bs \in AllBs(oc.text) \cap {1, 2, 3, 4, 6, 9, 13, 19} :
+         LET blocks == BlocksByCut(oc.text, <<NL>>, Offsets(Len(oc.text), bs)) IN
+         /\ FirstBlockHoldsTop(oc.text, oc.o, blocks) = HoldsTopAt(oc.text, top, bs)
+         /\ FirstBlockHoldsTop(oc.text, oc.o, blocks) => ReadBlocksOpts(oc.text, oc.o, blocks) = whole
+\* without options the option reader is the plain parser
+OptsDefaultIsParse ==
+  TextCase => LET w == ReadOpts(T, [hdr |-> -1, names |-> FALSE, nc |-> 0, skip |-> <<>>, comment |-> FALSE]) IN
+              (~w.err /\ w.hdr = ParseCsv(T).hdr /\ w.rows = ParseCsv(T).rows)
 
 Fr == Frames[ccase.f]
 Files == WriteFiles(Fr, ccase.lay, ccase.single, ccase.wi)
